@@ -13,6 +13,7 @@ RULE = ("(a) widths: every (global bitlength b in 2..4[5], requested width n in 
         "unpack(pack(x)) == x by value also at a non-zero bit offset, bitlen() == len(pack(x)), emitted constraints "
         "satisfied, plain out-of-range leaves rejected. Non-trivial = n != b for (a); schema depth >= 2 with a "
         "non-power-of-two modulus for (b); distinct by case digest.")
+RULE += " Extensions (seeded rounds 10-15): widths 63-250 in the real field, shape of width-limited decompositions in every mode, settings left intact by the packers, values reassembled from raw wires and declared n-bit."
 
 
 def widths_shard(bs, p):
